@@ -25,6 +25,9 @@ def run(c):
     behs = proto.simulate(c, 'LSProtocol_shadow_f3.cfg', 2000 if thorough else 300, 14)
     res = proto.replay(c, behs, False, 1, [1, 2], drain=False)
     proto.absorb_filtered(c, res, 'C03')
+    # the same steps on DBIs of several hundred entries with values of very different lengths (pages split and
+    # records move while LS iterates and writes): content against the per-key last-writer-wins reference
+    vlib.absorb(c, vlib.run_harness(['bulk', 'C03'], timeout=600))
     c.assumptions += ['"running" starts after the start-up capture; changes made while LS is down are stamped 1 ns (documented)',
                       'shadow mode sees net changes between two LS transactions', 'one instance + environment; one key (quick)']
     c.extra['rule'] = 'simulated behaviours of LSLoop (deduplicated) replayed through the real sync loop; distinct = behaviours longer than 6 steps'
